@@ -29,7 +29,7 @@ def one(rec, hub, seed, tier, i):
     with dsm.quiet():
         if which == 0:
             cfg = dsm.make_config(fd, rng, tier)
-            s = dsm.make_stock(fd, cfg, "InflowDrivenDSM", inflow=dsm.driver_values(rng, cfg["shape"], "positive" if rng.random() < 0.8 else "scaled:positive"))
+            s = dsm.make_stock(fd, cfg, "InflowDrivenDSM", inflow=dsm.driver_values(rng, cfg["shape"], str(rng.choice(["positive", "positive", "scaled:positive", "collapse"]))))
             s.compute()
         elif which == 1:
             cfg = dsm.make_config(fd, rng, tier)
@@ -43,6 +43,14 @@ def one(rec, hub, seed, tier, i):
             s = dsm.make_stock(fd, cfg, "StockDrivenDSM", solver="manual" if which == 2 else "lapack", lm=lm,
                                stock=dsm.driver_values(rng, cfg["shape"], str(rng.choice(["stock", "growing", "scaled:growing"]))))
             s.compute()
+        if hasattr(s, "lifetime_model") and rng.random() < 0.3:
+            # the same stock and the same lifetime model once more with other driver values (cached tables are shared state)
+            drv = s.stock if type(s).__name__ == "StockDrivenDSM" else s.inflow
+            drv.values[...] = drv.values * rng.uniform(0.5, 2.0, size=drv.values.shape)
+            s.compute()
+            # and a second stock of the other kind that shares the lifetime-model instance
+            other = dsm.make_stock(fd, cfg, "InflowDrivenDSM", lm=s.lifetime_model, inflow=np.abs(np.asarray(s.inflow.values, dtype=float)))
+            other.compute()
         if hasattr(s, "lifetime_model") and rng.random() < 0.4:
             # same objects, other parameters: the identities must hold for the recomputed stock as well
             lm = s.lifetime_model
